@@ -45,3 +45,4 @@ if __name__ == "__main__":
         print("PROBLEM", p)
 import translate_c11
 import translate_suborder
+import translate_relpair
